@@ -574,8 +574,14 @@ def jobs(tier, seed):
     else:
         for a in range(N_CORE):
             for b in range(N_CORE):
+                if OPS[a][0] == "fixture" and OPS[b][0] == "fixture":
+                    # the heaviest shards (two fixtures with symbolic failure flags) are split once more by the third operation
+                    for c in range(N_CORE):
+                        js.append(Job("ops.n%d.%02d.%02d.%02d" % (n, a, b, c), "props.c13:h_ctx_ops", {"n": n, "prefix": [a, b, c]},
+                                      reach=[], min_paths=1, cost=50, validate=2, max_paths=400000, budget_s=1500, closure=False))
+                    continue
                 js.append(Job("ops.n%d.%02d.%02d" % (n, a, b), "props.c13:h_ctx_ops", {"n": n, "prefix": [a, b]},
-                              reach=[], min_paths=5, cost=100, validate=4, max_paths=400000, closure=False))
+                              reach=[], min_paths=5, cost=100, validate=4, max_paths=400000, budget_s=1500, closure=False))
     ix = lambda *op: OPS.index(tuple(op))
     scoped = [ix("push", None), ix("cleanup", "layer:scenario"), ix("cleanup", "layer:rule"), ix("cleanup", "layer:feature"), ix("cleanup", "plain"),
               ix("pop"), ix("set", "a"), ix("del", "a"), ix("push", "scenario"), ix("fixture", "gen")]
